@@ -966,6 +966,7 @@ class Context:
             JSUint8ClampedArray,
             JSArrayBuffer,
             JSArray,
+            JSTypedArray,
         )
 
         type_classes = {
@@ -1002,8 +1003,8 @@ class Context:
 
                 result = array_class(length, buffer, byte_offset)
                 return result
-            elif isinstance(arg, JSArray):
-                # new Int32Array([1, 2, 3])
+            elif isinstance(arg, (JSArray, JSTypedArray)):
+                # new Int32Array([1, 2, 3]) / new Int32Array(otherTypedArray)
                 length = arg.length
                 result = array_class(length)
                 for i in range(length):
